@@ -262,18 +262,27 @@ def s4(ctx):
     du = DefUse(cfg)
     expect = {"calendar": "calendar", "addressbook": "addressbook", "get_schedule_inbox_url": "schedule-inbox"}
     found = {}
+    from .common import const_at
+    from ..dataflow import origins
     for n in cfg.stmt_nodes():
         for c in n.calls():
             if isinstance(c.func, ast.Attribute) and c.func.attr == "set_type" and c.args:
-                tv = ctx.P.try_fold(cpd.module, c.args[0])
-                # which create_collection produced `resource` here
-                for d in du.reaching(n, "resource"):
-                    if isinstance(d.value, ast.Call) and d.value.args and isinstance(d.value.args[0], ast.Name):
-                        for dd in du.reaching(d.node, d.value.args[0].id):
-                            s = src(dd.value) if dd.value is not None else ""
-                            for key in expect:
-                                if ("'%s'" % key) in s or (key + "()") in s:
-                                    found[key] = tv
+                tv = const_at(ctx, cpd, du, n, c.args[0])
+                # which create_collection produced the resource whose store is typed here
+                base = c.func.value
+                while isinstance(base, ast.Attribute):
+                    base = base.value
+                if not isinstance(base, ast.Name):
+                    continue
+                for o in origins(du, n, base):
+                    v = o.leaf
+                    if o.kind != "expr" or not isinstance(v, ast.Call) or not (dotted(v.func) or "").endswith("create_collection") or not v.args:
+                        continue
+                    for po in origins(du, o.node, v.args[0]):
+                        s = src(po.leaf) if po.leaf is not None else ""
+                        for key in expect:
+                            if ("'%s'" % key) in s or (key + "()") in s:
+                                found[key] = tv
     for key, tv in expect.items():
         obs.append(ctx.ob(found.get(key) == tv, cpd.qualname, cpd.where, "default %s collection typed %s" % (key.replace("get_schedule_inbox_url", "inbox"), tv),
                           "set_type(%r)" % found.get(key),
